@@ -35,6 +35,8 @@ CHECKS = {
          "Every constructing and mutating operation including failing ones: bytes outside the slice (canaries, guard page) and, inside it, bytes outside the part being changed (computed from the reference layout of the pre-state) keep their contents."),
  "C18": ("model_checking", "hist", "6.C18", "explicit-state BFS (stateright) with assign_in_place of every enumerated fitting and non-fitting value (all variants, three emplacer kinds) at every unsized node, interleaved with container operations",
          "For every unsized catalog shape and buffer length: after a failed assign the bytes must validate, the value can be read, measured and assigned again (the search continues from it), and it must be unchanged when the refusal is for lack of room. Two genuine, unrepaired defects are listed as known findings F10/F11."),
+ "C16": ("exploration", "portable", "6.C16", "exhaustive enumeration of all 65536 values of the 16-bit portable types (unary facts) and of value pairs (binary facts); boundary lattice for 32/64-bit types and floats; differential against the native type including 'both panic'",
+         "All 12 Int and 4 Float aliases and Bool: ALIGN 1, SIZE, stored bytes = to_le/be_bytes, lossless round trip incl. NaN payloads, ordering, + - * / % and assign forms, neg/abs/signum/abs_sub, zero/one/min/max, to/from u64/i64/usize, NumCast, from_str_radix, Display/Debug, equality = byte equality; Bool validates exactly 0 and 1. 32/64-bit value spaces are covered on a boundary lattice only (all macros share one body that is checked exhaustively at 16 bits). Payloads of NaNs *computed* by arithmetic are not compared (unspecified in Rust)."),
  "C19": ("exploration", "decode", "6.C19", "exhaustive single-corruption enumeration of every constrained byte of every enumerated image, position judged against the reference's offending range",
          "Every constrained byte (Bool, tag, UTF-8) at every nesting position the catalog offers, each corrupted every listed way: the error must be a content error positioned inside the offending range."),
 }
@@ -61,6 +63,7 @@ m = {
   {"name": "decode", "path": "crates/engines/src/bin/decode.rs", "serves_properties": ["C01", "C02", "C06", "C19"], "kind_free_text": "E1 exhaustive product sweep over byte strings on the real validators vs reference decoder"},
   {"name": "emplace", "path": "crates/engines/src/bin/emplace.rs", "serves_properties": ["C03", "C15", "C17", "C20"], "kind_free_text": "E1 exhaustive product sweep over emplacements"},
   {"name": "hist", "path": "crates/engines/src/bin/hist.rs", "serves_properties": ["C05", "C11", "C12", "C13", "C14", "C18"], "kind_free_text": "E2 explicit-state search (stateright BFS) over byte images, every transition a real library call vs refmodel::model"},
+  {"name": "portable", "path": "crates/engines/src/bin/portable.rs", "serves_properties": ["C16"], "kind_free_text": "E1 exhaustive sweep over portable scalar values and pairs vs native arithmetic"},
   {"name": "layout", "path": "crates/engines/src/bin/layout.rs", "serves_properties": ["C04"], "kind_free_text": "E1 exhaustive product sweep over shapes x lengths x values"},
  ],
  "checks": checks,
